@@ -72,6 +72,14 @@ def main():
             t0 = time.time()
             res = run_checks(wt, expect, env)
             missed = [c for c, v in res.items() if v["rc"] != 1]
+            if missed and kind == "seed" and used == "HEAD" and sh(f"git -C /repo rev-parse --short HEAD").stdout.strip() != base:
+                # a later fix: commit may have neutralised the seeded change (its own demo passes on HEAD): judge it on the commit it was written for
+                sh(f"git -C /repo worktree remove --force {wt}")
+                sh(f"git -C /repo worktree add -q --detach {wt} {base}")
+                if sh(f"git -C {wt} apply --whitespace=nowarn {patch}").returncode == 0:
+                    res = run_checks(wt, expect, env)
+                    missed = [c for c, v in res.items() if v["rc"] != 1]
+                    used = base + " (missed on HEAD: re-judged on its own base)"
             results[name] = {"applied_on": used, "checks": res}
             print(f"{kind} {name} (on {used}): " + "; ".join(f"{c}={'CAUGHT ' + ','.join(v['clauses'][:2]) if v['rc'] == 1 else 'MISSED rc=' + str(v['rc'])}" for c, v in res.items()) + f"  [{time.time() - t0:.0f}s]", flush=True)
             if missed:
